@@ -14,7 +14,7 @@ TXT = {
  "C03": "Same exhaustive search; the set of live keys lost by each transition (scan before minus scan after at one clock reading) must be empty, or exactly the erased key, or exactly one victim of an insert of a new key into a full cache whose residents are all live.",
  "C04": "Exhaustive search over the four TTL containers with a link-time virtual clock stepped onto, just before and 1 ns around every model deadline; every lookup form and the scan must never return a key whose model deadline (latest successful write + TTL in force) is <= now. Plus concurrent 'clocked' programs (two writers + a clock-tick thread, all schedules): no key served at or after the deadline the implementation recorded for it.",
  "C05": "Same search; every key whose model deadline is still in the future and that was not erased/cleared/legitimately evicted must be returned; deadlines restart on every successful write with the TTL supplied/configured, update_ttl leaves existing deadlines alone.",
- "C06": "Preemption-bounded stateless exploration of real threads on the real container under a serialising scheduler (choice points at every operation invocation and every lock acquisition, found by interposing pthread_mutex_lock): every multiset of 2-3 per-thread programs of 1-2 operations over a per-container concurrency alphabet (single and range forms, clean, dynamically_age, update_ttl, clear, observers; keys forced to collide) from a catalogue of pre-states (empty, half, full, full with an expired / age-stale entry). For every complete schedule the recorded results plus public probes (size/scan, then - on re-execution - eviction order and expiry/aging behaviour) must equal those of some sequential order of the same operations, consistent with per-thread and real-time order, run on the same implementation; a range that is not atomic has no witness order; deadlock is a violation.",
+ "C06": "Preemption-bounded stateless exploration of real threads on the real container under a serialising scheduler (choice points at every operation invocation and every lock acquisition, found by interposing pthread_mutex_lock; in additional bounded tiers also at heap (de)allocations outside and inside critical sections and right after the last unlock of an operation): every multiset of 2-3 per-thread programs of 1-2 operations over a per-container concurrency alphabet (single and range forms, clean, dynamically_age, update_ttl, clear, observers; keys forced to collide) from a catalogue of pre-states (empty, half, full, full with an expired / age-stale entry). For every complete schedule the recorded results plus public probes (size/scan, then - on re-execution - eviction order and expiry/aging behaviour) must equal those of some sequential order of the same operations, consistent with per-thread and real-time order, run on the same implementation; a range that is not atomic has no witness order; deadlock is a violation.",
  "C07": "The same exploration under ThreadSanitizer: for every container every unordered pair of public member functions (self pairs, observers and update_ttl included) from every catalogued pre-state, all schedules, plus 2x2 / 3x1 programs; the scheduler translation unit is uninstrumented and hands off by raw futex so it adds no happens-before edges and the detector stays sighted; each report is attributed to the program, schedule and the two access stacks.",
  "C08": "The same exhaustive search run under AddressSanitizer + UBSan + libstdc++ debug mode (checked iterators) with an instance-counting, canary-carrying heap-owning value type; after every replay the container is destroyed and the live-instance count must be back to baseline. Explores behind functional deviations too (model re-synchronised from the scan) so latent memory errors after a logic bug are still reached.",
  "C09": "Exhaustive search with all three allow values on every key in every reachable state (absent, live, erased, evicted, expired-unreaped, exactly at expiry), single and range inserts; returned bools/counts and the resulting scan are compared with the model; a per-key 'rejected insert pending' flag attributes later value/deadline drift to the rejected call.",
@@ -23,7 +23,7 @@ TXT = {
  "C12": "Exhaustive search of fifo incl. erase of head/middle/tail and iterator-pair overloads; victim must be the resident with the smallest model insertion sequence number.",
  "C13": "Exhaustive search of mru; victim must be the resident with the largest model recency.",
  "C14": "Exhaustive search of lfuda with the virtual clock around the tick boundary (age == tick is not aged, one step more is), several tick/ratio settings; at every aging point the model ages exactly the entries idle strictly longer than the tick; dynamically_age()'s return value, all use counts and the victim are compared.",
- "C15": "Exhaustive search of rr where every evicting insert is branched over 12 equal quantiles of the mt19937 output range (generator reseeded through -fno-access-control); each branch must lose exactly one prior resident, and over the 12 branches every resident must be chosen exactly 12/n times - exhausting the random source instead of sampling it; a second eviction drawn from the advanced generator stream must not hit the first one's position for all 12 seeds.",
+ "C15": "Exhaustive search of rr where every evicting insert - single, or an insert_range that overflows the cache by one - is branched over 12 equal quantiles of the mt19937 output range (generator reseeded through -fno-access-control); each branch must lose exactly one prior resident, and over the 12 branches every resident must be chosen exactly 12/n times - exhausting the random source instead of sampling it; a second eviction drawn from the advanced generator stream must not hit the first one's position for all 12 seeds.",
  "C16": "Exhaustive search of tlru/utlru incl. update_ttl shortening/lengthening; an insert of a new key into a full cache that holds at least one expired resident (size()==capacity() and fewer live keys than capacity) must lose no live key.",
  "C17": "Exhaustive search of the four TTL containers; after clean_expired_values() size() must equal the number of live keys, no live key may be lost, the return value must equal the drop of size(); ut_map/ut_set additionally size()==live right after every call and erase of an expired key must fail. Plus the concurrent clocked programs: clean must not leave an entry resident past its recorded deadline.",
  "C18": "Product (twin instance) search: from every reachable state and every range call, A = state + range call, B = state + the same elements as single calls at the frozen clock; counts / per-element results must agree and A, B are then explored as a pair over the whole alphabet with all public outputs compared until their concrete states coincide (fixpoint) - every continuation, not a sampled one.",
